@@ -182,7 +182,7 @@ func ruleF42(c *Ctx) *RuleResult {
 }
 
 func ruleF43(c *Ctx) *RuleResult {
-	r := &RuleResult{Floor: 2, FloorWhat: "stores of an MPEG-TS segment into the open slot"}
+	r := &RuleResult{Floor: 1, FloorWhat: "stores of an MPEG-TS segment into the open slot"}
 	slotF := c.Field("", "muxerStream", "nextSegment")
 	wF := c.Field("", "switchableWriter", "w")
 	bwF := c.Field("", "muxerSegmentMPEGTS", "bw")
@@ -326,7 +326,7 @@ func ruleF45(c *Ctx) *RuleResult {
 				bad = "stored outside muxerPart.writeSample"
 			}
 			if bad == "" {
-				conds := ifsOn(fn, func(v ssa.Value) bool {
+				conds := ifsOnV(fn, func(v ssa.Value) bool {
 					bo, ok := v.(*ssa.BinOp)
 					if !ok || bo.Op != token.EQL {
 						return false
